@@ -948,6 +948,9 @@ def run(ctx):
     # (f) end to end
     run_e2e(ctx, procs, e2e_corpus)
 
+    # (g) generated templates stored both ways (whole-template transparency), model compared too
+    run_generated_templates(ctx)
+
     # --- extraction cross-check: a sample evaluated by vm_compute ----------------
     rng = ctx.rng
     items = []
@@ -979,6 +982,62 @@ def run(ctx):
         'character columns with a negative octet count are outside the model (Bits.write_bytes refuses, Python slices); never produced by the coder',
         'the theorems cover every width and subset count; the generated space is widths <= 64 (+ a few illegal ones), <= 40 subsets',
     ]
+
+
+def run_generated_templates(ctx):
+    """Whole templates (operators, replication, bitmaps) over the grammar of C01, with
+    replication factors / bitmaps / reference values shared by all subsets: the same
+    values are encoded compressed and uncompressed by the implementation, decoded,
+    and must give identical values, labels and links; the compressed encode/decode is
+    also compared with the extracted model (EncodeC/DecodeC over Column.v)."""
+    import pipeline as P
+    import json as _json
+    n = ctx.n(200, 4000)
+    cases = P.build_cases(ctx, n, gen_kwargs=dict(size=6), nsub_choices=(2, 2, 3, 4, 6), compressed=True, shared=True)
+    P.attach_templates(cases)
+    P.run_gen(cases)
+    P.run_encode(cases)
+    P.run_decode(cases)
+
+    def jn(x):
+        return _json.dumps(x, sort_keys=True, default=lambda o: o.decode('latin-1') if isinstance(o, bytes) else str(o))
+    for c in cases:
+        if not c.get('toks') or not c.get('gen', '').startswith('ok'):
+            ctx.dist['templates-generator-rejected'] += 1
+            continue
+        case = {'ids': c['ids'], 'seed': c['seed'], 'forced': c['forced'], 'nsub': c['nsub'], 'version': c['version']}
+        ctx.count(('tmpl', tuple(c['ids']), c['seed']), True)
+        ctx.dist['templates-compressed'] += 1
+        eq, detail = P.compare_encode(c)
+        if not eq:
+            ctx.compare(case, 'impl', 'model', kind='template-compressed-encode', holds=lambda: P.roundtrip_holds(c),
+                        extra={'detail': detail})
+            continue
+        if c['impl_enc'][0] != 'ok':
+            ctx.dist['templates-encoder-refused'] += 1
+            continue
+        eq, detail = P.compare_decode(c)
+        if not eq and not ('ulp=1' in detail and 'scale=-' in detail):
+            ctx.compare(case, 'impl', 'model', kind='template-compressed-decode', holds=lambda: P.roundtrip_holds(c),
+                        extra={'detail': detail})
+        # the same data, stored uncompressed
+        cu = dict(c, compressed=False)
+        eu = P.impl_encode(cu)
+        if eu[0] != 'ok':
+            ctx.violation({'kind': 'template-transparency', 'case': case, 'why': 'uncompressed form refused: %r' % (eu,)},
+                          'ids=%s: encodes compressed but not uncompressed' % c['ids'])
+            continue
+        cu['impl_enc'] = eu
+        du = P.impl_decode(cu)
+        dc = c.get('impl_dec')
+        if not dc or dc[0] != 'ok' or du[0] != 'ok':
+            ctx.violation({'kind': 'template-transparency', 'case': case, 'why': 'decode failed: %r / %r' % (dc and dc[:2], du[:2])},
+                          'ids=%s: one storage form does not decode' % c['ids'])
+            continue
+        if jn(dc[1]) != jn(du[1]) or dc[2] != du[2] or dc[3] != du[3]:
+            ctx.violation({'kind': 'template-transparency', 'case': case,
+                           'why': 'values/labels/links differ between compressed and uncompressed storage'},
+                          'ids=%s: compressed and uncompressed storage decode differently' % c['ids'])
 
 
 def parse_opt(tok):
